@@ -854,6 +854,10 @@ func UnmarshalTypeCases(value *yaml.Node) (TypeCases, error) {
 func UnmarshalGenericNode(value *yaml.Node) (Type, error) {
 	simpleType := &SimpleType{NodeMeta: createNodeMeta(value)}
 
+	if value.Kind != yaml.MappingNode {
+		return nil, parseError(value, "a !generic type must be specified as a map with the 'name' and 'args' properties")
+	}
+
 	for i := 0; i < len(value.Content); i += 2 {
 		k := value.Content[i]
 		v := value.Content[i+1]
@@ -862,22 +866,21 @@ func UnmarshalGenericNode(value *yaml.Node) (Type, error) {
 			simpleType.Name = v.Value
 		case "args":
 			simpleType.TypeArguments = make([]Type, 0)
-			if v.Kind != yaml.SequenceNode {
-				typeArg, err := UnmarshalTypeYAML(v)
+			argNodes := []*yaml.Node{v}
+			if v.Kind == yaml.SequenceNode {
+				argNodes = v.Content
+			}
+
+			for _, c := range argNodes {
+				typeArg, err := UnmarshalTypeYAML(c)
 				if err != nil {
 					return nil, err
 				}
+				if typeArg == nil {
+					return nil, parseError(c, "a type argument of a !generic type cannot be null")
+				}
 
 				simpleType.TypeArguments = append(simpleType.TypeArguments, typeArg)
-			} else {
-				for _, c := range v.Content {
-					typeArg, err := UnmarshalTypeYAML(c)
-					if err != nil {
-						return nil, err
-					}
-
-					simpleType.TypeArguments = append(simpleType.TypeArguments, typeArg)
-				}
 			}
 		default:
 			return nil, parseError(k, "field '%s' is not valid on an !generic specification ('name' and 'args' are expected)", k.Value)
